@@ -163,10 +163,23 @@ def h_direct(c):
     PE = pl.PerformanceEvent
     nb = c.params['bins']
     bins_ = [c.choice('bin%d' % i, list(range(1, nb + 1))) for i in range(3)]
-    s1, s2 = c.choice('s1', [1, 2]), c.choice('s2', [1, 3])
     metric = c.params.get('metric', False)
+    # non-default shift limit (max_shift_quarters / max_shift_steps): a longer
+    # advance is canonical only as maximal shifts followed by the remainder
+    msq = c.params.get('msq')
+    limit = None if msq is None else (msq * spq if metric else msq)
+    s1 = c.choice('s1', [1, 2])
+    s2 = c.choice('s2', [1, 3] if limit is None else [1, limit, limit + 1,
+                                                       2 * limit + 2])
     ev = []
     cur = None
+
+    def shift(n_):
+      while limit is not None and n_ > limit:
+        ev.append(PE(PE.TIME_SHIFT, limit))
+        n_ -= limit
+      ev.append(PE(PE.TIME_SHIFT, n_))
+
     def on(pitch, b):
       nonlocal cur
       if b != cur:
@@ -174,29 +187,35 @@ def h_direct(c):
         cur = b
       ev.append(PE(PE.NOTE_ON, pitch))
     on(60, bins_[0])
-    ev.append(PE(PE.TIME_SHIFT, s1))
+    shift(s1)
     on(64, bins_[1])
-    ev.append(PE(PE.TIME_SHIFT, s2))
+    shift(s2)
     ev.append(PE(PE.NOTE_OFF, 60))
     on(67, bins_[2])
-    ev.append(PE(PE.TIME_SHIFT, s1))
+    shift(s1)
     ev.append(PE(PE.NOTE_OFF, 64))
-    ev.append(PE(PE.TIME_SHIFT, s2))
+    shift(s2)
     ev.append(PE(PE.NOTE_OFF, 67))
+    kw = {}
+    if msq is not None:
+      kw = {'max_shift_quarters': msq} if metric else {'max_shift_steps': msq}
     if metric:
       seq0 = pl.MetricPerformance(steps_per_quarter=spq, start_step=start,
-                                  num_velocity_bins=nb)
+                                  num_velocity_bins=nb, **kw)
     else:
       seq0 = pl.Performance(steps_per_second=100, start_step=start,
-                            num_velocity_bins=nb)
+                            num_velocity_bins=nb, **kw)
     for e in ev:
       seq0.append(e)
     if metric:
       q = sl.quantize_note_sequence(seq0.to_sequence(qpm=qpm), spq)
-      seq1 = pl.MetricPerformance(q, start_step=start, num_velocity_bins=nb)
+      seq1 = pl.MetricPerformance(q, start_step=start, num_velocity_bins=nb,
+                                  **kw)
     else:
       q = sl.quantize_note_sequence_absolute(seq0.to_sequence(), 100)
-      seq1 = pl.Performance(q, start_step=start, num_velocity_bins=nb)
+      seq1 = pl.Performance(q, start_step=start, num_velocity_bins=nb, **kw)
+    c.check(seq1.max_shift_steps == seq0.max_shift_steps,
+            'same shift limit on the extracted performance')
     a = [(e.event_type, e.event_value) for e in seq0]
     b = [(e.event_type, e.event_value) for e in seq1]
     c.check(a == b, 'same performance events after the round trip')
@@ -400,6 +419,14 @@ def h_performance(c):
     c.check(p0.steps_per_second == p1.steps_per_second, 'same resolution')
   c.check(_same_perf(c, p0, p1), 'same events after the round trip')
   c.check(p0.start_step == p1.start_step, 'same start step')
+  PE_ = pl.PerformanceEvent
+  for p_ in (p0, p1):
+    c.check(c.And([e.event_value <= p_.max_shift_steps for e in p_
+                   if e.event_type == PE_.TIME_SHIFT] or [True]),
+            'no extracted TIME_SHIFT exceeds the performance\'s own shift '
+            'limit')
+  c.check(p0.max_shift_steps == (ms * c.params['spq'] if kind == 'metric'
+                                 else ms), 'shift limit as requested')
   c.cover('velocity change between notes',
           N >= 2 and bins > 0 and
           c.Not(c.eq(pl.velocity_to_bin(notes[0]['v'], bins),
@@ -838,6 +865,13 @@ def jobs(tier):
     add('h_direct', kind='melody', L=8, spq=1, qpm=97.3, start=4, pad=True,
         budget=1800)
   add('h_direct', kind='perf', L=0, spq=4, qpm=120, bins=3, budget=600)
+  # a non-default shift limit below and above the default of 4 quarters / 100
+  # steps, with advances longer than the limit
+  add('h_direct', kind='perf', L=0, spq=4, qpm=93.5, bins=2, metric=True, msq=2,
+      budget=600)
+  add('h_direct', kind='perf', L=0, spq=2, qpm=60, bins=2, metric=True, msq=5,
+      start=16, budget=600)
+  add('h_direct', kind='perf', L=0, spq=4, qpm=120, bins=2, msq=7, budget=600)
   add('h_direct', kind='perf', L=0, spq=12, qpm=93.7, bins=3, start=96,
       metric=True, budget=600)
   if deep:
